@@ -112,6 +112,15 @@ func identFor(id string, c certT) *hopkit.Ident {
 	return x
 }
 
+var decoy *hopkit.Ident
+
+func decoyIdent() *hopkit.Ident {
+	if decoy == nil {
+		decoy = pki.Issue("valid", "decoy.invalid")
+	}
+	return decoy
+}
+
 func kemFor(name string) *keys.KEMKeyPair {
 	idMu.Lock()
 	defer idMu.Unlock()
@@ -142,22 +151,22 @@ type stepObs struct {
 }
 
 type result struct {
-	I        int             `json:"i"`
-	Err      string          `json:"err,omitempty"`
-	Done     []bool          `json:"done"`
-	Agree    []bool          `json:"agree"`
-	Probe    []bool          `json:"probe"`
-	KeysDiff []bool          `json:"keysdiff"` // same session id on both sides but different keys
-	C2SeqS2C []bool          `json:"c2s_eq_s2c"`
-	Acc      map[string]int  `json:"acc"`
+	I        int                 `json:"i"`
+	Err      string              `json:"err,omitempty"`
+	Done     []bool              `json:"done"`
+	Agree    []bool              `json:"agree"`
+	Probe    []bool              `json:"probe"`
+	KeysDiff []bool              `json:"keysdiff"` // same session id on both sides but different keys
+	C2SeqS2C []bool              `json:"c2s_eq_s2c"`
+	Acc      map[string]int      `json:"acc"`
 	Leafs    map[string][]string `json:"leafs"` // abstract cert ids of accepted connections
-	Nhs      map[string]int  `json:"nhs"`
-	Nsess    map[string]int  `json:"nsess"`
-	Sent     map[string]int  `json:"sent"`
-	KeySet   []string        `json:"-"`
-	Muts     []string        `json:"muts,omitempty"`
-	Lens     map[string]int  `json:"lens,omitempty"` // datagram length per "<session><hop>" that travelled
-	Steps    []stepObs       `json:"steps"`          // per history step: what the receiving side did
+	Nhs      map[string]int      `json:"nhs"`
+	Nsess    map[string]int      `json:"nsess"`
+	Sent     map[string]int      `json:"sent"`
+	KeySet   []string            `json:"-"`
+	Muts     []string            `json:"muts,omitempty"`
+	Lens     map[string]int      `json:"lens,omitempty"` // datagram length per "<session><hop>" that travelled
+	Steps    []stepObs           `json:"steps"`          // per history step: what the receiving side did
 }
 
 func srvAddr(n int) *net.UDPAddr { return simwire.Addr("10.0.0."+strconv.Itoa(n+1), 77) }
@@ -250,6 +259,22 @@ func replayOnce(idx int, b *beh, seed int64) (res result) {
 		opt := hopkit.SrvOpt{Ident: holder(b, sc.Cert, sc.Key), Hidden: sc.Hidden, ClientVerify: pol}
 		if sc.Kem != "none" {
 			opt.KEM = kemFor(sc.Kem)
+		}
+		if sc.Hidden && sc.Kem != "none" && idx%2 == 1 {
+			// concretisation variant: a hidden server with TWO certificates, the one of this role second, so that
+			// the trial decryption of a request aimed at it succeeds on the second trial (same role, same facts)
+			real := opt.Ident
+			label := func(id *hopkit.Ident, dflt string) string {
+				if len(id.Leaf.IDChunk.Blocks) > 0 && len(id.Leaf.IDChunk.Blocks[0].Label) > 0 {
+					return string(id.Leaf.IDChunk.Blocks[0].Label)
+				}
+				return dflt
+			}
+			opt = hopkit.SrvOpt{Ident: decoyIdent(), KEM: kemFor("decoy"), Hidden: true, ClientVerify: pol,
+				Extra: []*hopkit.Ident{real}, ExtraKEM: []*keys.KEMKeyPair{opt.KEM}, Patterns: []string{"decoy.invalid", label(real, "real.invalid")}}
+			if opt.Patterns[1] == "decoy.invalid" {
+				opt.Patterns[1] = "real.invalid"
+			}
 		}
 		srv[s] = w.NewServer(srvAddr(n), opt)
 	}
